@@ -596,3 +596,144 @@ def tail_forward(ctx):
                 ctx.ok('%s:processed-prefix-forwarded' % f.key, f.loc(bi), 'sink gets %s' % expr_str(e)[:90])
     if n == 0:
         ctx.anchor_missing('transforming writer with a partial-progress transform')
+
+
+def pulling_fns(F):
+    """Local functions that (transitively) call Read::read / read_exact / read_to_end on something."""
+    direct = set()
+    for f in F.fns:
+        for bi, t, c in f.calls():
+            if any(is_trait_call(c, READ_TRAITS, nm) for nm in ('read', 'read_exact', 'read_to_end', 'read_u8', 'read_u32', 'read_u64')):
+                direct.add(f.path)
+    cg = F.callgraph()
+    res = set(direct)
+    changed = True
+    while changed:
+        changed = False
+        for p, edges in cg.items():
+            if p not in res and any(g.path in res for _, g in edges):
+                res.add(p)
+                changed = True
+    return res
+
+
+# (function key, callee name) -> reason
+END_PULL_EXCEPTIONS = {
+    ('LZMAReader::read_decode', 'normalize'): 'after the end marker the range decoder is normalised once: those bytes were written by '
+                                               'the encoder\'s flush and belong to the stream (same as LZMAInputStream in XZ for Java); '
+                                               'the call is control dependent on end_marker_detected()',
+}
+
+
+@rule('END-NO-PULL', ['C16'], floor=7)
+def end_no_pull(ctx):
+    """Typestate: once a single-stream decoder has set its end flag (the bool field whose truth makes `read`
+    return Ok(0) at once) it does not pull from the source again in that call: following the store, with the
+    flag known to be true at every test of it, no call that can reach Read::read/read_exact is reachable."""
+    F = ctx.facts
+    pull = pulling_fns(F)
+    n = 0
+    cg_cache = {}
+    for rf in read_impls(F):
+        adt = rf.self_adt
+        if not adt or last_seg(adt) in ('LZMA2ReaderMT', 'LZIPReaderMT'):
+            continue
+        # end flags: bool self fields tested at the entry of read (or of the method read forwards to) with an Ok(0) exit
+        cands = [rf]
+        for bi, t, c in rf.calls():
+            for g in F.resolve_callee(c):
+                if g.self_adt == adt and g.kind != 'closure':
+                    cands.append(g)
+        flags = set()
+        for g in cands:
+            prov = Prov(g)
+            for s in g.reachable:
+                e = switch_edges(g, s)
+                if e is None:
+                    continue
+                cond = prov.operand(g.blocks[s]['term']['discr'], 0, '%d:T' % s)
+                sf = self_field_of(cond)
+                if not sf or len(sf) != 1:
+                    continue
+                # true edge leads straight to a return of Ok(0)
+                tb = e[1]
+                region = g.reach_from([tb])
+                if len(region) <= 4 and any(b in g.return_blocks() for b in region) and not any(
+                        g.blocks[b]['term']['k'] == 'call' for b in region):
+                    flags.add(sf[0])
+        if not flags:
+            continue
+        for g in [m for m in F.fns if m.self_adt == adt and m.kind != 'closure']:
+            prov = None
+            for bi, b in enumerate(g.blocks):
+                if b['cleanup'] or bi not in g.reachable:
+                    continue
+                for si, s in enumerate(b['stmts']):
+                    if not (s['k'] == 'assign' and s['lhs']['l'] == 1 and s['lhs']['p']):
+                        continue
+                    from lzlint.core import field_path
+                    fp = field_path(s['lhs'])
+                    if not fp or len(fp) != 1 or fp[0] not in flags:
+                        continue
+                    prov = prov or Prov(g)
+                    v = prov.rvalue(s['rv'], 0, '%d:%d' % (bi, si))
+                    if not (v[0] == 'const' and v[2] in (1, True)):
+                        continue
+                    n += 1
+                    flag = fp[0]
+                    # forward walk with the flag known true
+                    seen = set()
+                    stack = [(bi, si + 1)]
+                    hits = []
+                    while stack:
+                        cb, start = stack.pop()
+                        if (cb, start) in seen:
+                            continue
+                        seen.add((cb, start))
+                        blk = g.blocks[cb]
+                        killed = False
+                        for sj in range(start, len(blk['stmts'])):
+                            s2 = blk['stmts'][sj]
+                            if s2['k'] == 'assign' and s2['lhs']['l'] == 1 and field_path(s2['lhs']) == [flag]:
+                                killed = True
+                                break
+                        if killed:
+                            continue
+                        t = blk['term']
+                        if t['k'] == 'call':
+                            c = callee_of(t)
+                            if c:
+                                cal = Callee(c)
+                                tg = F.resolve_callee(cal)
+                                if any(h.path in pull for h in tg) or any(is_trait_call(cal, READ_TRAITS, nm) for nm in ('read', 'read_exact')):
+                                    hits.append((cb, cal))
+                            if t.get('target') is not None:
+                                stack.append((t['target'], 0))
+                            continue
+                        if t['k'] == 'switch':
+                            cond = prov.operand(t['discr'], 0, '%d:T' % cb)
+                            pol = True
+                            while cond[0] == 'un' and cond[1] == 'Not':
+                                cond = cond[2]
+                                pol = not pol
+                            e = switch_edges(g, cb)
+                            if e is not None and self_field_of(cond) == (flag,):
+                                stack.append((e[1] if pol else e[0], 0))
+                                continue
+                        for nb in g.succs(cb):
+                            stack.append((nb, 0))
+                    key = '%s:after-%s' % (g.key, flag)
+                    bad = []
+                    for cb, cal in hits:
+                        if (g.key, cal.name) in END_PULL_EXCEPTIONS:
+                            ctx.exception('%s:%s' % (key, cal.name), g.loc(cb), END_PULL_EXCEPTIONS[(g.key, cal.name)])
+                        else:
+                            bad.append((cb, cal))
+                    if bad:
+                        ctx.violation(key, g.loc(bad[0][0]), 'after `%s = true` (%s) the decoder still calls %s, which can pull bytes from the '
+                                      'source: a stream embedded in a larger one is over-read' % (
+                                          flag, g.loc(bi, si), ', '.join(sorted({c.name for _, c in bad}))))
+                    else:
+                        ctx.ok(key, g.loc(bi, si), 'no source pull reachable after the end flag is set')
+    if n == 0:
+        ctx.anchor_missing('end-flag stores in the single-stream decoders')
